@@ -455,6 +455,12 @@ def run(prog, check):
     check.saw(pf_)
     check.ob('C10.R8', '%s::exogenous-entries-applied' % pf_.key, okx_, pf_.where, whyx_,
              'AddExogenous / SetExogenous called twice for one variable: the second path is the one to be used')
+    # ---- R4 (cont.): the stated value reaches the (0) row as the number supplied --------------------------------
+    from ._common import initial_value_text_exact
+    for f_, where_, ok_, why_ in initial_value_text_exact(prog):
+        check.saw(f_)
+        check.ob('C10.R4', '%s::initial-value-text-exact(%s)' % (f_.key, where_.rsplit(':', 1)[0]), ok_, where_, why_,
+                 'an initial condition with more than a few decimals (80/3, 1e-7): the k=0 value must be that number')
     check.floor('C10.R8', 1)
     check.floor('C10.R7', 2)
     check.floor('C10.R1', 6)
